@@ -56,7 +56,7 @@ def bounds(tier):
                       '2 variables, 4 constraints, coefficients [-2,2]: 8000 seeded', '4 variables, 4 constraints, coefficients [-2,2]: 800 seeded',
                       '2 variables, coefficients {-3,-2,2,3}: all pairs and triples; 3 variables {-3,-2,0,2,3}: 1600 seeded triples'],
             'simplex': ['2 variables <=3 constraints exhaustive [-2,2]', '3 variables, 3-4 constraints, 4000 seeded'],
-            'proofs': '4000 seeded concrete systems', 'branch_and_bound': '40000 seeded boxed integer systems against z3 LIA', 'constants': 'symbolic in [-%d,%d]' % (CRANGE, CRANGE)}
+            'proofs': '4000 seeded concrete systems', 'branch_and_bound': '20000 seeded boxed integer systems against z3 LIA', 'constants': 'symbolic in [-%d,%d]' % (CRANGE, CRANGE)}
 
 
 def setup(tier, seed):
@@ -137,7 +137,7 @@ def units(tier, seed):
             us.append(('proofs', seed, i, 50))
         for i in range(0, len(repeated_form_systems()), 48):
             us.append(('proofs', 'repeated', i, 48))
-        for i in range(0, 40000, 500):
+        for i in range(0, 20000, 500):
             us.append(('bnb', seed, i, 500))
     rnd.shuffle(us)
     return us
